@@ -499,6 +499,26 @@ def probes() -> List[Tuple[str, Dict[str, Any]]]:
     c = base()
     c["defaults"] = {"node_scan_duration": 4, "folder_scan_duration": 1, "folder_restore_duration": 1}
     out.append(("probe/defaults_block_scan_durations", c))
+    # the same block where the shipped UC7 scenarios write it (inside `simulation'), with nodes and a service that state
+    # some of the options themselves
+    for where in ("top", "simulation"):
+        c = base()
+        blk = {"node_start_up_duration": 1, "node_shut_down_duration": 2, "node_scan_duration": 4, "service_fix_duration": 5}
+        if where == "top":
+            c["defaults"] = blk
+        else:
+            c["simulation"]["defaults"] = blk
+        for n in c["simulation"]["network"]["nodes"]:
+            if n["hostname"] == "b":
+                n["services"] = [{"type": "dns-server"}, {"type": "ftp-server"}]
+            if n["hostname"] == "a":
+                n["start_up_duration"] = 0
+        out.append((f"probe/defaults_block_{where}_level_with_services", c))
+    # link bandwidths that are not whole numbers of Mbps
+    c = scenarios.switched(4)
+    for l, bw in zip(c["simulation"]["network"]["links"], (0.5, 2.5, 0.001, 1000.25)):
+        l["bandwidth"] = bw
+    out.append(("probe/fractional_link_bandwidth", c))
     # node_sets (node_sets.rst)
     c = base()
     c["simulation"]["network"]["node_sets"] = [{"type": "office-lan", "lan_name": "CORP_LAN", "subnet_base": 7, "pcs_ip_block_start": 10,
@@ -794,8 +814,7 @@ def main(tier: str, seed: int) -> int:
         traces += _restrict_node_set_traces(cfg, trs, notes)
         chk.add_case({"scenario": label})
         if game is not None and ((cfg.get("simulation") or {}).get("defaults")):
-            notes["scenarios_with_simulation.defaults_block_not_read_by_the_loader"] = notes.get(
-                "scenarios_with_simulation.defaults_block_not_read_by_the_loader", 0) + 1
+            notes["scenarios_with_a_defaults_block_inside_simulation"] = notes.get("scenarios_with_a_defaults_block_inside_simulation", 0) + 1
         small = _n_nodes(cfg) <= 15
         if game is None:
             continue
